@@ -466,6 +466,29 @@ func checkC03Pairing(c *Ctx, et interface{}) {
 				}
 			}
 			c.Check(patched, "R4", f.Name()+":seat-map-patch", p.InstrPos(ss.Instr), "seat map patched at that seat", "the new seat map is not patched at the seat the seat manager assigned")
+			// the value patched in is the index the new player will have in the final list:
+			// len(old list) + len(new players so far) - 1
+			for _, s3 := range p.Stores([]*ssa.Function{f}) {
+				a := s3.Addr.Strip()
+				if a.Kind != "index" || a.Args[1].Strip().String() != v.String() {
+					continue
+				}
+				iv := s3.Val.Strip()
+				okIdx := false
+				if iv.Kind == "binop" && iv.Name == "-" && iv.Args[1].Strip().Name == "1" {
+					sum := iv.Args[0].Strip()
+					if sum.Kind == "binop" && sum.Name == "+" {
+						x, y := sum.Args[0].Strip(), sum.Args[1].Strip()
+						for k := 0; k < 2; k++ {
+							if x.IsCall("len") && x.Args[0].Strip().IsField("TableState", "PlayerStates") && y.IsCall("len") && y.Args[0].Strip().Kind == "builtin" && y.Args[0].Strip().Name == "append" {
+								okIdx = true
+							}
+							x, y = y, x
+						}
+					}
+				}
+				c.Check(okIdx, "R4", f.Name()+":seat-map-patch-index", p.InstrPos(s3.Instr), "seat ↦ len(old players) + len(new players so far) - 1", "the seat map entry of a new player is "+iv.String()+", not the index that player gets in the extended player list")
+			}
 		}
 		c.Min("R4", "new-player seat stores in "+f.Name(), n, 1)
 		// R6b: the player list only grows by append(old, new...)
